@@ -64,6 +64,10 @@ namespace GeographicLib {
       throw GeographicErr("Standard latitude 2 not in [-"
                           + to_string(Math::qd) + "d, "
                           + to_string(Math::qd) + "d]");
+    if ((fabs(stdlat1) == Math::qd || fabs(stdlat2) == Math::qd) &&
+        stdlat1 != stdlat2)
+      throw GeographicErr
+        ("Standard latitudes must be equal is either is a pole");
     real sphi1, cphi1, sphi2, cphi2;
     Math::sincosd(stdlat1, sphi1, cphi1);
     Math::sincosd(stdlat2, sphi2, cphi2);
